@@ -1036,15 +1036,17 @@ class SignalManager(QMI_MessageHandler):
                           ("subscribe" if pending_request.subscribe else "unsubscribe"),
                           full_name, success)
 
-            # A removal notice for this signal may have overtaken the reply: the publisher was removed
-            # just after the remote side accepted the request. The remote side has already dropped us.
-            if pending_request.subscribe and success and pending_request.publisher_removed:
-                success = False
-                error_msg = "Publisher of {} was removed".format(full_name)
+            # A removal notice for this signal arrived while the subscribe request was pending. It may have
+            # overtaken this reply (the publisher was removed just after the remote side accepted the request,
+            # and the remote side has dropped us again), or it may belong to an earlier subscription that we
+            # had already given up (then the remote side has registered us). The two cases can not be told
+            # apart here: ask again, the next reply decides.
+            retry = pending_request.subscribe and success and pending_request.publisher_removed
+            pending_request.publisher_removed = False
 
             # On successful completion of a subscribe request, move the waiting
             # subscribers to the list of local subscribers for this signal.
-            if pending_request.subscribe and success:
+            if pending_request.subscribe and success and not retry:
                 lsubs = self._local_subscriptions.get(full_name)
                 if lsubs:
                     lsubs.update(pending_request.receivers)
@@ -1052,13 +1054,13 @@ class SignalManager(QMI_MessageHandler):
                     self._local_subscriptions[full_name] = pending_request.receivers
 
             # When a subscribe request completes, notify all waiting subscribers.
-            if pending_request.subscribe:
+            if pending_request.subscribe and not retry:
                 pending_request.set_reply(success, error_msg)
 
             request_message = None
-            if (not pending_request.subscribe) and pending_request.receivers:
+            if retry or ((not pending_request.subscribe) and pending_request.receivers):
                 # An unsubscribe request just completed, but there are already
-                # new subscribers waiting for the same signal.
+                # new subscribers waiting for the same signal (or a subscribe request must be repeated).
                 # Immediately send a new subscription request.
                 request_message = QMI_SignalSubscriptionRequest(
                     source_address=QMI_MessageHandlerAddress(self._context.name, self.PUBSUB_OBJECT_ID),
